@@ -1725,6 +1725,10 @@ class Exec(object):
         if a is None or b is None:
             return a is None and b is None
         if is_strlike(a) and is_strlike(b):
+            def _isb(x):
+                return isinstance(x, (bytes, bytearray)) or bool(getattr(x, "is_bytes", False))
+            if _isb(a) != _isb(b):
+                return False        # bytes never equal str in Python 3
             return str_eq(a, b, self.ctx if self.frame.spec else None)
         if is_strlike(a) or is_strlike(b):
             # str vs non-str
